@@ -1024,12 +1024,37 @@ func (in *inliner) thread(fn *ssa.Function, C *ssa.BasicBlock) bool {
 			}
 		}
 	}
-	preds := append([]*ssa.BasicBlock(nil), C.Preds...)
-	for _, pr := range preds {
-		if _, ok := lastInstr(pr).(*ssa.Jump); !ok {
-			return false // a pred that branches into C with a conditional edge: leave alone
+	// a predecessor that reaches C through a conditional edge gets a forwarding block on that edge
+	for pi, pr := range C.Preds {
+		if _, ok := lastInstr(pr).(*ssa.Jump); ok {
+			continue
 		}
+		if _, ok := lastInstr(pr).(*ssa.If); !ok {
+			return false
+		}
+		E := newBlock(fn, "inl.edge")
+		E.Instrs = []ssa.Instruction{newJump(E)}
+		E.Preds = []*ssa.BasicBlock{pr}
+		E.Succs = []*ssa.BasicBlock{C}
+		done := false
+		for si, sc := range pr.Succs {
+			if sc == C && !done {
+				// the si-th out-edge of pr corresponds to one entry of C.Preds; when both edges lead to C, entries are in edge order
+				pr.Succs[si] = E
+				done = true
+			}
+		}
+		C.Preds[pi] = E
+		var nblocks []*ssa.BasicBlock
+		for _, b := range fn.Blocks {
+			if b == C {
+				nblocks = append(nblocks, E)
+			}
+			nblocks = append(nblocks, b)
+		}
+		fn.Blocks = nblocks
 	}
+	preds := append([]*ssa.BasicBlock(nil), C.Preds...)
 	edgeVal := func(v ssa.Value, i int) ssa.Value {
 		if ph, ok := v.(*ssa.Phi); ok && ph.Block() == C {
 			return ph.Edges[i]
